@@ -23,10 +23,12 @@ def convert_timestamp_to_unix_nano(iso_timestamp: str) -> int:
     dt = datetime.fromisoformat(iso_timestamp.rstrip("Z")).replace(
         tzinfo=timezone.utc
     )
-    # Convert the datetime object to a Unix timestamp in seconds
-    unix_timestamp = dt.timestamp()
-    # Convert the Unix timestamp to nanoseconds
-    unix_nano = int(unix_timestamp * 1e9 + dt.microsecond * 1e3)
+    # Convert the whole seconds of the datetime object to a Unix timestamp
+    # (exact) and add the microseconds separately using integer arithmetic:
+    # a float cannot hold nanoseconds since the epoch exactly and
+    # dt.timestamp() already includes the microseconds
+    unix_seconds = int(dt.replace(microsecond=0).timestamp())
+    unix_nano = unix_seconds * 10**9 + dt.microsecond * 10**3
     return unix_nano
 
 
